@@ -147,13 +147,16 @@ def cert_cmd(rng):
 
     def opts(pool, unknown):
         chosen = [o for o in pool if rng.random() < 0.4]
-        if rng.random() < 0.2:
+        if rng.random() < 0.35:
             chosen.append(unknown)
         return '|'.join('%s:%s' % (hx(nm), '_' if d is None else hx(d)) for nm, d in sorted(chosen)) or '-'
     crit = opts([('force-command', rng.choice(['/bin/true', 'internal-sftp'])), ('source-address', rng.choice(['10.0.0.0/8', '192.0.2.0/24,2001:db8::/32']))],
-                ('verified-user@example.com', 'x'))
+                rng.choice([('verified-user@example.com', 'x'), ('Force-Command', '/bin/true'), ('SOURCE-ADDRESS', '10.0.0.0/8'), ('force-Command', 'x')]))
     ext = opts([('permit-X11-forwarding', None), ('permit-agent-forwarding', None), ('permit-port-forwarding', None), ('permit-pty', None),
-                ('permit-user-rc', None)], ('zz-future@example.com', None))
+                ('permit-user-rc', None)],
+               # names are compared octet by octet (PROTOCOL.certkeys): a name in another letter case is another, unknown, name
+               rng.choice([('zz-future@example.com', None), ('permit-x11-forwarding', None), ('Permit-PTY', None), ('PERMIT-USER-RC', None),
+                           ('permit-Agent-forwarding', None)]))
     principals = ','.join(hx(rng.choice(['root', 'alice', 'host.example.com', 'deploy'])) for _ in range(rng.choice([0, 1, 1, 2]))) or '-'
     return 'certed %s %s %d %d %s %s %d %d %s %s - %s %s' % (
         framegen.rnd_bytes(rng, 32).hex(), framegen.rnd_bytes(rng, 32).hex(), rng.choice([0, 1, 2 ** 63, rng.getrandbits(64)]), rng.choice([1, 2]),
